@@ -509,7 +509,7 @@ Definition rsa_verify (n e : N) (prefix hashed sig : list N) : bool :=
 (* crypto/rsa.VerifyPKCS1v15 as of go1.26 for a key that passed usableRSAKey:
    additionally refuses an even modulus *)
 Definition stdlib_rsa_verify (n e : N) (h : N) (hashed sig : list N) : bool :=
-  N.odd n && (len hashed =? hash_size h) && rsa_verify n e (stdlib_prefix h) hashed sig.
+  if N.odd n && (len hashed =? hash_size h) then rsa_verify n e (stdlib_prefix h) hashed sig else false.
 
 (* ------------------------------------------------ records and signed data *)
 Inductive rfield := FBytes (b : list N) | FName (n : list N).
@@ -807,7 +807,7 @@ Section Crypto.
       match hex_decode (d_digest d) with
       | None => false
       | Some [] => false
-      | Some want => existsb (fun k => usable_ds_candidate d k && ds_digest_matches k (d_dt d) want) (snd p)
+      | Some want => existsb (fun k => if usable_ds_candidate d k then ds_digest_matches k (d_dt d) want else false) (snd p)
       end
     end.
   Definition verify_ds (keymap : list (N * list dnskey)) (dss : list ds) : bool * bool :=
@@ -847,6 +847,6 @@ Section Crypto.
       else if negb valid_now then false
       else if negb (is_supported_dnskey_alg (s_alg s)) then false
       else if negb (signature_matches_rrset s set) then false
-      else existsb (fun k => usable_signature_candidate s k && (crypto_verify k s set =? E_OK)) cands
+      else existsb (fun k => if usable_signature_candidate s k then crypto_verify k s set =? E_OK else false) cands
     end.
 End Crypto.
